@@ -40,6 +40,7 @@ fn main() {
         "tree" => m_tree::line,
         "ast" => m_ast::line,
         "sema" => m_sema::line,
+        "semapay" => m_sema::payload_line,
         "uclass" => m_lex::uclass,
         _ => {
             eprintln!("usage: oq3-run <mode>");
